@@ -121,7 +121,8 @@ def run_cases(chk, cases, prefix_cfgs):
                     chk.extra["unreadable_outputs"][lang] += 1
                     continue     # C10's business (invalid output), not a key verdict
                 if r["status"] == "error":
-                    raise ToolError(f"case {case} rejected by typeshare: {r['errors']}")
+                    chk.refused(f"{lang}/{case['kind']}", f"{lang}: case {case} rejected by typeshare: {str(r['errors'])[:200]}", {"case": case, "lang": lang, "prefix": prefix})
+                    continue
                 ms = members_of(lang0, r["obs"], case, prefix if lang0 in ("swift", "kotlin") else "")
                 if exp is not None:
                     judge_obs(chk, lang, case, ms, exp, prefix)
